@@ -77,7 +77,12 @@ func dynamicReplace(in, out cty.Type) cty.Type {
 
 		return out
 	case out.IsObjectType():
-		// Objects are compatible with other objects and maps.
+		// Objects are compatible with other objects and maps. Anything else can
+		// reach here only below an optional attribute that a map's element
+		// type cannot fill, in which case out is the best we can do.
+		if !in.IsMapType() && !in.IsObjectType() {
+			return out
+		}
 		outTypes := map[string]cty.Type{}
 		if in.IsMapType() {
 			for attr, attrType := range out.AttributeTypes() {
@@ -124,7 +129,13 @@ func dynamicReplace(in, out cty.Type) cty.Type {
 
 		return out
 	case out.IsTupleType():
-		// Tuples are only compatible with other tuples
+		// Tuples are only compatible with other tuples of the same length.
+		// Anything else can reach here only below an optional attribute that
+		// a map's element type cannot fill, in which case out is the best we
+		// can do.
+		if !in.IsTupleType() || in.Length() != out.Length() {
+			return out
+		}
 		var types []cty.Type
 		for ix := 0; ix < len(out.TupleElementTypes()); ix++ {
 			types = append(types, dynamicReplace(in.TupleElementType(ix), out.TupleElementType(ix)))
